@@ -456,3 +456,164 @@ func localCopyOf(v ssa.Value, isLoad func(ssa.Value) bool) bool {
 	}
 	return isLoad(v)
 }
+
+const textC20Accounted = "R-C20-accounted: every goroutine the emulator's WaitGroup accounts for (a `go` statement preceded by Add) (self-wait) never reaches a Wait on that WaitGroup itself — it would wait for its own Done; (done-last) signals Done only after everything else it does on termination: `defer wg.Done()` is the first defer of the goroutine function (it runs last), so WaitForTermination does not return while the goroutine still works (the final save)"
+
+func ruleC20Accounted(c *Ctx) {
+	c.S.Rule("R-C20-accounted", textC20Accounted, 3)
+	isWG := func(call ssa.CallInstruction, method string) bool {
+		return fullCalleeName(call) == "(*sync.WaitGroup)."+method
+	}
+	n := 0
+	for _, fn := range c.SrcFuncs() {
+		for _, in := range instrsOf(fn) {
+			g, ok := in.(*ssa.Go)
+			if !ok {
+				continue
+			}
+			// accounted: an Add dominates the go statement
+			accounted := false
+			for _, in2 := range instrsOf(fn) {
+				if call, ok := in2.(*ssa.Call); ok && isWG(call, "Add") && instrDominates(in2, in) {
+					accounted = true
+				}
+			}
+			if !accounted {
+				continue
+			}
+			for _, target := range c.Callees(g) {
+				if !c.InPkg(target) || len(target.Blocks) == 0 {
+					continue
+				}
+				n++
+				// (self-wait)
+				key := fmt.Sprintf("%s:no-self-wait", fnName(target))
+				selfWait := ""
+				for f := range c.M.Reach(target) {
+					for _, in3 := range instrsOf(f) {
+						if call, ok := in3.(ssa.CallInstruction); ok && isWG(call, "Wait") {
+							if _, isGo := in3.(*ssa.Go); !isGo {
+								selfWait = fnName(f)
+							}
+						}
+					}
+				}
+				if selfWait != "" {
+					c.S.Bad("R-C20-accounted", key, c.Pos(g.Pos()), fmt.Sprintf("the goroutine %s, which the WaitGroup counts, can reach WaitGroup.Wait (in %s): it waits for its own Done and termination never completes", fnName(target), selfWait))
+				} else {
+					c.S.OK("R-C20-accounted", key, c.Pos(g.Pos()), "the goroutine never waits on the WaitGroup that counts it")
+				}
+				// (done-last)
+				key = fmt.Sprintf("%s:done-last", fnName(target))
+				var doneDefer *ssa.Defer
+				var defers []*ssa.Defer
+				plainDone := false
+				for _, in3 := range instrsOf(target) {
+					switch x := in3.(type) {
+					case *ssa.Defer:
+						defers = append(defers, x)
+						if isWG(x, "Done") {
+							doneDefer = x
+						}
+					case *ssa.Call:
+						if isWG(x, "Done") {
+							plainDone = true
+						}
+					}
+				}
+				switch {
+				case doneDefer == nil && !plainDone:
+					c.S.Bad("R-C20-accounted", key, c.Pos(target.Pos()), fmt.Sprintf("the goroutine %s is counted by the WaitGroup but never signals Done", fnName(target)))
+				case doneDefer != nil:
+					first := true
+					for _, d := range defers {
+						if d != doneDefer && !instrDominates(doneDefer, d) {
+							first = false
+						}
+					}
+					if first && doneDefer.Block() == target.Blocks[0] {
+						c.S.OK("R-C20-accounted", key, c.Pos(doneDefer.Pos()), "Done is deferred first: it runs after every other deferred call of the goroutine")
+					} else {
+						c.S.Bad("R-C20-accounted", key, c.Pos(doneDefer.Pos()), fmt.Sprintf("in %s the deferred Done is not the first defer: deferred calls registered before it (a final save, a cleanup) run after Done, i.e. after WaitForTermination may already have returned", fnName(target)))
+					}
+				default:
+					// explicit Done calls: nothing but the return may follow
+					bad := false
+					for _, in3 := range instrsOf(target) {
+						call, ok := in3.(*ssa.Call)
+						if !ok || !isWG(call, "Done") {
+							continue
+						}
+						blk := call.Block()
+						for _, in4 := range blk.Instrs[instrIndex(call)+1:] {
+							if _, isCall := in4.(ssa.CallInstruction); isCall {
+								bad = true
+							}
+						}
+					}
+					if bad {
+						c.S.Bad("R-C20-accounted", key, c.Pos(target.Pos()), fmt.Sprintf("%s keeps working after it signalled Done", fnName(target)))
+					} else {
+						c.S.OK("R-C20-accounted", key, c.Pos(target.Pos()), "Done is the last thing the goroutine does")
+					}
+				}
+			}
+		}
+	}
+	if n == 0 {
+		c.S.Undecided("R-C20-accounted", "goroutines", "-", "no goroutine accounted in a WaitGroup found")
+	}
+}
+
+const textC20Callback = "R-C20-callback-unlocked: a callback supplied by the embedding program (a value of an exported function type, e.g. the dispatch hook) is never invoked while the emulator holds a mutex that its exported API acquires — the callback may call RequestTermination, Close or SetHook, and those would wait for the lock its own caller holds"
+
+func ruleC20Callback(c *Ctx) {
+	c.S.Rule("R-C20-callback-unlocked", textC20Callback, 1)
+	lm := c.M.Locks()
+	// classes acquired (directly) by exported methods / functions of the package
+	api := lockSet(0)
+	for _, fn := range c.SrcFuncs() {
+		if fn.Object() == nil || !fn.Object().Exported() || fn.Parent() != nil {
+			continue
+		}
+		for _, in := range instrsOf(fn) {
+			if call, ok := in.(*ssa.Call); ok {
+				if op, cls, _ := lm.lockOp(call); op > 0 && cls >= 0 {
+					api |= 1 << uint(cls)
+				}
+			}
+		}
+	}
+	n := 0
+	for _, fn := range c.SrcFuncs() {
+		k := 0
+		for _, in := range instrsOf(fn) {
+			call, ok := in.(*ssa.Call)
+			if !ok || call.Call.IsInvoke() || call.Call.StaticCallee() != nil {
+				continue
+			}
+			if _, isB := call.Call.Value.(*ssa.Builtin); isB {
+				continue
+			}
+			nt, ok := call.Call.Value.Type().(*types.Named)
+			if !ok || !nt.Obj().Exported() || nt.Obj().Pkg() != c.Pkg.Types {
+				continue
+			}
+			if _, isSig := nt.Underlying().(*types.Signature); !isSig {
+				continue
+			}
+			n++
+			k++
+			key := fmt.Sprintf("%s:call-%s#%d", fnName(fn), nt.Obj().Name(), k)
+			held := lm.LocallyHeld(call) & api
+			if held == 0 {
+				c.S.OK("R-C20-callback-unlocked", key, c.Pos(call.Pos()), "no mutex of the public API is held around the callback")
+			} else {
+				c.S.Bad("R-C20-callback-unlocked", key, c.Pos(call.Pos()), fmt.Sprintf("%s invokes the user's %s while holding %s, which the exported API acquires: a callback that calls RequestTermination/Close/SetHook deadlocks, the listener stays open and Close never returns", fnName(fn), nt.Obj().Name(), lm.setString(held)))
+			}
+		}
+	}
+	if n == 0 {
+		c.S.Undecided("R-C20-callback-unlocked", "callbacks", "-", "no call through an exported callback type found (the dispatch hook was expected)")
+	}
+}
